@@ -1,6 +1,7 @@
 package main
 
 import (
+	"fmt"
 	"go/types"
 	"strings"
 
@@ -71,6 +72,15 @@ func (t *FnTrans) monitorOfComp(comp string) *monRef {
 func (t *FnTrans) lockPtr(c *ssa.CallCommon, args []Val) (comp string, ref string, ok bool) {
 	if len(args) == 0 {
 		return "", "", false
+	}
+	if u, isLoad := c.Args[0].(*ssa.UnOp); isLoad {
+		if fa, isFA := u.X.(*ssa.FieldAddr); isFA {
+			// mutex referenced through a pointer-typed field: identified with that field of its owner
+			p := t.ptrOf(fa)
+			if p.Kind == "field" {
+				return "L" + p.Comp[1:], p.Ref, true
+			}
+		}
 	}
 	p := args[0].P
 	if p == nil {
@@ -204,13 +214,39 @@ func (t *FnTrans) acquire(mon *monRef, ref string) {
 			t.cur.H[c] = t.newConst(c+"@acq", gs)
 			continue
 		}
+		if strings.HasPrefix(g, "elems:") {
+			// the elements of a slice-typed field are shared state as well
+			fname := g[len("elems:"):]
+			ft := t.fieldTypeByName(mon.ts.Name, fname)
+			if ft == nil {
+				t.fail("monitor of %s guards elems of unknown field %s", mon.ts.Name, fname)
+			}
+			u, ok := t.resolve(ft).Underlying().(*types.Slice)
+			if !ok {
+				t.fail("monitor guard elems:%s: not a slice", fname)
+			}
+			es := t.sortOf(u.Elem())
+			ec := t.comp("E."+mangle(es), "(Array Int (Array Int "+es+"))")
+			t.compT[ec] = t.resolve(u.Elem())
+			fc := t.comp("H."+tname+"."+fname, "(Array Int Slice)")
+			if _, has := t.compT[fc]; !has {
+				t.compT[fc] = t.resolve(ft)
+			}
+			base := app("s.base", app("select", t.get(fc), ref))
+			row := t.newConst(ec+"@acqrow", "(Array Int "+es+")")
+			if ii, ok := intInfoOf(t.resolve(u.Elem())); ok {
+				t.emit(fmt.Sprintf("(assert (forall ((tf$i Int)) (! %s :pattern ((select %s tf$i)))))", ii.inRange(app("select", row, "tf$i")), row))
+			}
+			t.cur.H[ec] = app("store", t.get(ec), base, row)
+			continue
+		}
 		c, s, ok := t.guardComp(mon, tname, g)
 		if !ok {
 			continue
 		}
 		fv := t.newConst(c+"@acq", arrayElemSort(s))
-		if es := arrayElemSort(s); es == "Int" {
-			// range of the field's Go type
+		if true {
+			// range / well-formedness of the field's Go type
 			if ft := t.fieldTypeByName(mon.ts.Name, g); ft != nil {
 				t.assume(t.rangeFact(fv, ft))
 				if _, isPtr := t.resolve(ft).Underlying().(*types.Pointer); isPtr && !t.mayHavePublished {
@@ -307,6 +343,9 @@ func (t *FnTrans) guardComp(mon *monRef, tname, g string) (string, string, bool)
 	}
 	c := "H." + tname + "." + g
 	s := "(Array Int " + t.sortOf(ft) + ")"
+	if _, has := t.compT[c]; !has {
+		t.compT[c] = ft
+	}
 	return t.comp(c, s), s, true
 }
 
@@ -536,6 +575,9 @@ func (t *FnTrans) intrinsicWrites(key string, c *ssa.CallCommon, l *loopInfo) bo
 	if kind == "wait" || kind == "signal" || kind == "broadcast" {
 		return false
 	}
+	if u, isLoad := recv.(*ssa.UnOp); isLoad {
+		recv = u.X
+	}
 	fa, ok := recv.(*ssa.FieldAddr)
 	if !ok {
 		return false
@@ -552,6 +594,14 @@ func (t *FnTrans) intrinsicWrites(key string, c *ssa.CallCommon, l *loopInfo) bo
 				pkg := mon.ts.Name[:strings.LastIndex(mon.ts.Name, ".")]
 				if gs, ok := t.eng.specs.Ghosts[pkg+"."+g[len("global:"):]]; ok {
 					t.w(l, "GG."+pkg+"."+g[len("global:"):], gs)
+				}
+				continue
+			}
+			if strings.HasPrefix(g, "elems:") {
+				if ft := t.fieldTypeByName(mon.ts.Name, g[len("elems:"):]); ft != nil {
+					if u, ok := t.resolve(ft).Underlying().(*types.Slice); ok {
+						t.wElem(l, u.Elem())
+					}
 				}
 				continue
 			}
